@@ -167,6 +167,7 @@ package atree
 //@        (forall k :: 0 <= k && k < len(old(as(slab, *ArrayDataSlab).elements)) ==> as(slab, *ArrayDataSlab).elements[len(old(a.elements)) - len(a.elements) + k] == old(as(slab, *ArrayDataSlab).elements)[k])
 //@   ensures[C05] inBandADS(a) && inBandADS(as(slab, *ArrayDataSlab))
 //@   ensures[C06] plainADS(a) && plainADS(as(slab, *ArrayDataSlab))
+//@   ensures[C09] a.header.slabID == old(a.header.slabID) && as(slab, *ArrayDataSlab).header.slabID == old(as(slab, *ArrayDataSlab).header.slabID) && a.next == old(a.next) && as(slab, *ArrayDataSlab).next == old(as(slab, *ArrayDataSlab).next)
 //@   modifies a.elements, a.header, as(slab, *ArrayDataSlab).elements, as(slab, *ArrayDataSlab).header, ghost.touched
 //@   loop 1: invariant -1 <= i && i < len(a.elements) && leftCount == i + 1 && leftSize == 21 + sum(bs, a.elements, i + 1) && leftSize >= minThreshold &&
 //@        (leftSize == a.header.size || leftSize >= midPoint || size - leftSize < minThreshold + maxInlineArrayElementSize)
@@ -184,6 +185,7 @@ package atree
 //@        (forall k :: 0 <= k && k < len(as(slab, *ArrayDataSlab).elements) ==> as(slab, *ArrayDataSlab).elements[k] == old(as(slab, *ArrayDataSlab).elements)[k + len(a.elements) - len(old(a.elements))])
 //@   ensures[C05] inBandADS(a) && inBandADS(as(slab, *ArrayDataSlab))
 //@   ensures[C06] plainADS(a) && plainADS(as(slab, *ArrayDataSlab))
+//@   ensures[C09] a.header.slabID == old(a.header.slabID) && as(slab, *ArrayDataSlab).header.slabID == old(as(slab, *ArrayDataSlab).header.slabID) && a.next == old(a.next) && as(slab, *ArrayDataSlab).next == old(as(slab, *ArrayDataSlab).next)
 //@   modifies a.elements, a.header, as(slab, *ArrayDataSlab).elements, as(slab, *ArrayDataSlab).header, ghost.touched
 //@   loop 1: invariant 0 <= i && i <= len(as(slab, *ArrayDataSlab).elements) && leftCount == a.header.count + i &&
 //@        leftSize == a.header.size + sum(bs, as(slab, *ArrayDataSlab).elements, i) && leftSize <= midPoint
